@@ -24,6 +24,8 @@ import (
 	"sort"
 	"sync"
 	"time"
+
+	"github.com/versity/versitygw/verifhook"
 )
 
 const (
@@ -126,6 +128,7 @@ func (s *IAMServiceInternal) GetUserAccount(access string) (Account, error) {
 // UpdateUserAccount updates the specified user account fields. Returns
 // ErrNoSuchUser if the account does not exist.
 func (s *IAMServiceInternal) UpdateUserAccount(access string, props MutableProps) error {
+	verifhook.At("iam.update.enter")
 	s.Lock()
 	defer s.Unlock()
 
@@ -155,6 +158,7 @@ func (s *IAMServiceInternal) UpdateUserAccount(access string, props MutableProps
 // DeleteUserAccount deletes the specified user account. Does not check if
 // account exists.
 func (s *IAMServiceInternal) DeleteUserAccount(access string) error {
+	verifhook.At("iam.delete.enter")
 	s.Lock()
 	defer s.Unlock()
 
@@ -343,6 +347,7 @@ func (s *IAMServiceInternal) storeIAM(update UpdateAcctFunc) error {
 			return fmt.Errorf("remove old iam file: %w", err)
 		}
 
+		verifhook.At("iam.store.removed")
 		// save copy of data
 		datacopy := make([]byte, len(b))
 		copy(datacopy, b)
